@@ -316,6 +316,8 @@ def c02_rf26(run):
     run.min_instances('RF26', 10)
     rf_fold.rf34(run)
     rf_fold.rf38b(run)
+    rf_fold.rf39(run)
+    rf_fold.rf40(run)
 
 
 PLAN = {
